@@ -15,6 +15,7 @@ type Queue[T any] struct {
 	active []*T
 	queued []*T
 	wait   []*chan struct{}
+	vp     vpState
 }
 
 // Opts is used to configure a new priority queue.
